@@ -12,8 +12,8 @@ theorem C15_poolready_enter (c : Cfg) (s : St) (e : Ev)
     (h0 : s.poolReady = false) (h1 : (step c s e).1.poolReady = true) :
     ∃ ready, e = .addPoolReady ready ∧ ready ≥ c.minEff := by
   cases e <;> simp only [step] at h1
-  case forkGate => split at h1 <;> simp_all
-  case setWorker a => simp_all
+  case forkGate a => split at h1 <;> simp_all [setW]
+  case setWorker a => split at h1 <;> simp_all [setW]
   case forkFailed => simp_all
   case delWorker a => simp_all
   case workerForked a b => split at h1 <;> simp_all
@@ -35,8 +35,8 @@ theorem C15_poolready_exit (c : Cfg) (s : St) (e : Ev)
     (h0 : s.poolReady = true) (h1 : (step c s e).1.poolReady = false) :
     ∃ ready, e = .remPoolReady ready ∧ ready < c.minEff := by
   cases e <;> simp only [step] at h1
-  case forkGate => split at h1 <;> simp_all
-  case setWorker a => simp_all
+  case forkGate a => split at h1 <;> simp_all [setW]
+  case setWorker a => split at h1 <;> simp_all [setW]
   case forkFailed => simp_all
   case delWorker a => simp_all
   case workerForked a b => split at h1 <;> simp_all
@@ -59,8 +59,8 @@ theorem C15_poolready_exit_vetoed (c : Cfg) (s : St) (ready : Nat)
 
 /-- **C15 (never forks while at Max)**: the fork gate is closed whenever the
     supervisor tracks `Max` workers or more. -/
-theorem C15_fork_gate_closed (c : Cfg) (s : St) (h : s.tracked.length ≥ c.max) :
-    step c s .forkGate = (s, .vetoed) := by
+theorem C15_fork_gate_closed (c : Cfg) (s : St) (a : Nat) (h : s.tracked.length ≥ c.max) :
+    step c s (.forkGate a) = (s, .vetoed) := by
   have : ¬ s.tracked.length < c.max := by omega
   simp [step, this]
 
@@ -71,36 +71,44 @@ theorem C15_kill_requested (c : Cfg) (s : St) (a n : Nat)
     (step c s (.errWorker a)).2 = .kill a ∧ a ∈ (step c s (.errWorker a)).1.killReq := by
   simp [step, hw, hn]
 
-/-! ### the worker map stays within Max — when rounds do not overlap -/
-
-/-- the accounting invariant: tracked plus in-flight forks. -/
-def Within (c : Cfg) (s : St) : Prop := s.tracked.length + s.inflight ≤ c.max
-
-/-- what a non-overlapping schedule guarantees about each event: a fork passes the
-    gate only with room for it, a registration belongs to a fork in flight and
-    brings a new address. -/
-def Disciplined (c : Cfg) (s : St) : Ev → Prop
-  | .forkGate => s.tracked.length + s.inflight < c.max
-  | .setWorker a => 1 ≤ s.inflight ∧ hasW s a = false
-  | .forkFailed => 1 ≤ s.inflight
-  | _ => True
+/-! ### the worker map stays within Max — for every sequence of events -/
 
 theorem filter_length_le (l : List (Nat × Nat)) (p : Nat × Nat → Bool) : (l.filter p).length ≤ l.length :=
   List.length_filter_le p l
 
-theorem within_step (c : Cfg) (s : St) (e : Ev) (hw : Within c s) (hd : Disciplined c s e) :
-    Within c (step c s e).1 := by
-  unfold Within at *
+theorem setW_length_le (s : St) (a : Nat) : (setW s a).tracked.length ≤ s.tracked.length + 1 := by
+  have := filter_length_le s.tracked (fun w => w.1 != a)
+  simp only [setW, List.length_append, List.length_cons, List.length_nil]
+  omega
+
+/-- overwriting a tracked address does not grow the map. -/
+theorem setW_length_tracked (s : St) (a : Nat) (h : hasW s a = true) :
+    (setW s a).tracked.length ≤ s.tracked.length := by
+  have hlt : (s.tracked.filter (fun w => w.1 != a)).length < s.tracked.length := by
+    apply List.length_filter_lt_length_iff_exists.mpr
+    simp only [hasW, List.any_eq_true] at h
+    obtain ⟨w, hin, hw⟩ := h
+    exact ⟨w, hin, by simp at hw; simp [hw]⟩
+  simp only [setW, List.length_append, List.length_cons, List.length_nil]
+  omega
+
+/-- one step never takes the map beyond Max. -/
+theorem within_step (c : Cfg) (s : St) (e : Ev) (hw : s.tracked.length ≤ c.max) :
+    (step c s e).1.tracked.length ≤ c.max := by
   cases e <;> simp only [step]
-  case forkGate =>
-    simp only [Disciplined] at hd
-    split <;> simp only <;> omega
+  case forkGate a =>
+    split
+    · have := setW_length_le s a; dsimp only; omega
+    · exact hw
   case setWorker a =>
-    simp only [Disciplined] at hd
-    have := filter_length_le s.tracked (fun w => w.1 != a)
-    simp only [List.length_append, List.length_cons, List.length_nil]
-    omega
-  case forkFailed => simp only [Disciplined] at hd; omega
+    split
+    · rename_i h
+      cases ht : hasW s a
+      · simp only [ht, Bool.false_or, decide_eq_true_eq] at h
+        have := setW_length_le s a; dsimp only; omega
+      · have := setW_length_tracked s a ht; dsimp only; omega
+    · exact hw
+  case forkFailed => exact hw
   case delWorker a =>
     have := filter_length_le s.tracked (fun w => w.1 != a)
     omega
@@ -108,8 +116,6 @@ theorem within_step (c : Cfg) (s : St) (e : Ev) (hw : Within c s) (hd : Discipli
     split
     · exact hw
     · rename_i w hf
-      -- the boot entry leaves, the local entry comes: the filter drops at least the boot entry
-      have hmem : (a, w.2) ∈ s.tracked ∨ True := Or.inr trivial
       have hlt : (s.tracked.filter (fun x => x.1 != a && x.1 != b)).length < s.tracked.length := by
         have hx := List.find?_some hf
         have hin := List.mem_of_find?_eq_some hf
@@ -130,74 +136,58 @@ theorem within_step (c : Cfg) (s : St) (e : Ev) (hw : Within c s) (hd : Discipli
     · exact hw
     · split <;> exact hw
 
-/-- **C15 (never more than Max tracked) — for schedules whose rounds do not
-    overlap**: if every fork passes the gate only while tracked + in-flight is
-    below Max (what one normalizing round started with nothing in flight
-    guarantees, see `round_disciplined`), the supervisor never tracks more than Max
-    workers. -/
-theorem C15_tracked_le_max_partial (c : Cfg) (evs : List Ev) :
-    ∀ s, Within c s →
-      (∀ (pre : List Ev) (e : Ev) (post : List Ev), evs = pre ++ e :: post → Disciplined c (run c s pre) e) →
-      (run c s evs).tracked.length ≤ c.max := by
+/-- **C15 (never more than Max tracked)**: after every sequence of fork requests,
+    registrations, failures, kills, address switches, errors and PoolReady attempts,
+    in any order, the supervisor tracks at most Max workers (fix 06f8e10: a fork is
+    tracked from the moment it passes the gate, SetWorker adds no new entry at Max). -/
+theorem C15_tracked_le_max (c : Cfg) (evs : List Ev) :
+    ∀ s, s.tracked.length ≤ c.max → (run c s evs).tracked.length ≤ c.max := by
   induction evs with
-  | nil => intro s hw _; unfold Within at hw; simp [run]; omega
+  | nil => intro s hw; simpa [run] using hw
   | cons e r ih =>
-    intro s hw hd
-    have h1 : Disciplined c s e := by simpa [run] using hd [] e r rfl
-    have hw' := within_step c s e hw h1
-    have := ih (step c s e).1 hw' (by
-      intro pre e' post hr
-      have := hd (e :: pre) e' post (by simp [hr])
-      simpa [run] using this)
+    intro s hw
+    have := ih (step c s e).1 (within_step c s e hw)
     simpa [run] using this
 
-/-- one normalizing round that starts with nothing in flight asks for
-    `forksWanted` forks: each of them passes the gate with room to spare. -/
-theorem round_disciplined (c : Cfg) (s : St) (h0 : s.inflight = 0) (k : Nat)
-    (hk : k < forksWanted c s.tracked.length) :
-    s.tracked.length + (s.inflight + k) < c.max := by
-  unfold forksWanted at hk
+theorem C15_tracked_le_max_init (c : Cfg) (evs : List Ev) : (run c {} evs).tracked.length ≤ c.max :=
+  C15_tracked_le_max c evs {} (by simp)
+
+/-- **C15 (never forks while at Max)**, as a fact about histories: a fork that is
+    let through found fewer than Max workers tracked - forks in flight included,
+    because they are tracked. -/
+theorem C15_fork_passes_below_max (c : Cfg) (s : St) (a : Nat) (h : (step c s (.forkGate a)).2 = .ok) :
+    s.tracked.length < c.max := by
+  simp only [step] at h
+  split at h
+  · assumption
+  · simp at h
+
+/-- forks a normalizing round asks for never exceed the room that is left. -/
+theorem round_within (c : Cfg) (tracked : Nat) (h : tracked ≤ c.max) :
+    tracked + forksWanted c tracked ≤ c.max := by
+  unfold forksWanted
   have : Nat.min (c.minEff + c.warm) c.max ≤ c.max := Nat.min_le_right _ _
   omega
 
-/-- **the full statement is false of the gates alone**: they count tracked workers
-    only, so a second round of forks that passes the gate before the first round
-    has registered makes the supervisor track more than Max (Min = Max = 2: four
-    forks pass with an empty map, four registrations follow). -/
-theorem C15_tracked_le_max_full_false :
-    ∃ (c : Cfg) (evs : List Ev), (∀ pre e post, evs = pre ++ e :: post →
-        e = .forkGate → (step c (run c {} pre) e).2 = .ok) ∧
-      (run c {} evs).tracked.length > c.max := by
-  refine ⟨⟨2, 2, 0, 3⟩, [.forkGate, .forkGate, .forkGate, .forkGate, .setWorker 1, .setWorker 2,
-    .setWorker 3, .setWorker 4], ?_, by decide⟩
-  intro pre e post h he
-  subst he
-  have hl : pre.length < 8 := by
-    have := congrArg List.length h
-    simp at this; omega
-  -- the only fork gates are the first four events
-  match pre, h with
-  | [], _ => decide
-  | [_], h => simp at h; obtain ⟨rfl, _⟩ := h; decide
-  | [_, _], h => simp at h; obtain ⟨rfl, rfl, _⟩ := h; decide
-  | [_, _, _], h => simp at h; obtain ⟨rfl, rfl, rfl, _⟩ := h; decide
-  | _ :: _ :: _ :: _ :: rest, h =>
-    simp at h
-    obtain ⟨_, _, _, _, h⟩ := h
-    -- from the fifth event on there is no forkGate
-    exfalso
-    match rest, h with
-    | [], h => simp at h
-    | [_], h => simp at h
-    | [_, _], h => simp at h
-    | [_, _, _], h => simp at h
-    | _ :: _ :: _ :: _ :: r2, h =>
-      simp at h
+/-- **the pinned gates did not have the property** (before fix 06f8e10): they
+    counted the map only and a fork entered the map with SetWorker, so a second
+    round of forks that passed the gate before the first round had registered made
+    the supervisor track more than Max (Min = Max = 2: four forks pass with an empty
+    map, four registrations follow). -/
+theorem C15_tracked_le_max_pinned_false :
+    ∃ (c : Cfg) (evs : List Ev), (runPinned c {} evs).tracked.length > c.max ∧
+      (run c {} evs).tracked.length ≤ c.max := by
+  refine ⟨⟨2, 2, 0, 3⟩, [.forkGate 1, .forkGate 2, .forkGate 3, .forkGate 4, .setWorker 1, .setWorker 2,
+    .setWorker 3, .setWorker 4], by decide, by decide⟩
 
-/-- non-vacuity: a disciplined round on a pool 2/3/1. -/
-example : (run ⟨2, 3, 1, 3⟩ {} [.forkGate, .forkGate, .forkGate, .setWorker 1, .setWorker 2, .setWorker 3,
-    .workerForked 1 11, .addPoolReady 2]).tracked.length = 3 ∧
-    (run ⟨2, 3, 1, 3⟩ {} [.forkGate, .forkGate, .forkGate, .setWorker 1, .setWorker 2, .setWorker 3,
-    .workerForked 1 11, .addPoolReady 2]).poolReady = true := by decide
+/-- non-vacuity: a round on a pool 2/3/1, a fourth request refused, a late registration for an
+    address that was killed meanwhile refused at Max. -/
+example : (run ⟨2, 3, 1, 3⟩ {} [.forkGate 1, .forkGate 2, .forkGate 3, .forkGate 4, .setWorker 1, .setWorker 2,
+    .setWorker 3, .workerForked 1 11, .addPoolReady 2]).tracked.length = 3 ∧
+    (run ⟨2, 3, 1, 3⟩ {} [.forkGate 1, .forkGate 2, .forkGate 3, .setWorker 1, .setWorker 2, .setWorker 3,
+    .workerForked 1 11, .addPoolReady 2]).poolReady = true ∧
+    (step ⟨2, 3, 1, 3⟩ (run ⟨2, 3, 1, 3⟩ {} [.forkGate 1, .forkGate 2, .forkGate 3]) (.forkGate 4)).2 = .vetoed ∧
+    (step ⟨2, 3, 1, 3⟩ (run ⟨2, 3, 1, 3⟩ {} [.forkGate 1, .forkGate 2, .delWorker 1, .forkGate 3, .forkGate 4])
+      (.setWorker 1)).2 = .vetoed := by decide
 
 end Am.Super
